@@ -34,24 +34,32 @@ Spec == Init /\ [][Next]_vars
 RECURSIVE ApplyKv(_, _)
 ApplyKv(m, ops) == IF ops = <<>> THEN m ELSE ApplyKv([m EXCEPT ![Head(ops)[1]] = Head(ops)[2]], Tail(ops))
 RECURSIVE FoldFrom(_, _, _)
-FoldFrom(m, b, S) == IF b > Len(Bat) THEN m ELSE FoldFrom(IF b \in S THEN ApplyKv(m, Bat[b].ops) ELSE m, b + 1, S)
+FoldFrom(m, b, S) == IF b > Len(Bat) THEN m ELSE FoldFrom(TLCEval(IF b \in S THEN ApplyKv(m, Bat[b].ops) ELSE m), b + 1, S)
 Fold(S) == FoldFrom([k \in DKeys |-> 0], 1, S)
 DataOf(pairs) == ApplyKv([k \in DKeys |-> 0], pairs)
 SetOf(s) == {s[j] : j \in 1..Len(s)}
 IsRec == rec.cls # "none"
 
 \* the process neither crashed nor hung, and the database opens once the fault has cleared
-FaultOpenOk == IsRec => rec.rc = 0 /\ rec.status = 0 /\ rec.bad = 0 /\ rec.getmismatch = 0
+FaultOpenOkC == IsRec => rec.rc = 0 /\ rec.status = 0 /\ rec.bad = 0 /\ rec.getmismatch = 0
 \* every write that returned success, before or after the failure, is still present
-FaultAckedSurvive == (IsRec /\ rec.rc = 0) => ackedAll \subseteq SetOf(rec.markers)
+FaultAckedSurviveC == (IsRec /\ rec.rc = 0) => ackedAll \subseteq SetOf(rec.markers)
 \* nothing that was never issued; failed / in-flight writes may or may not be present, but only whole
-FaultNothingElse == (IsRec /\ rec.rc = 0) => SetOf(rec.markers) \subseteq begun
-FaultAtomic == (IsRec /\ rec.rc = 0) => DataOf(rec.data) = Fold(SetOf(rec.markers))
+FaultNothingElseC == (IsRec /\ rec.rc = 0) => SetOf(rec.markers) \subseteq begun
+FaultAtomicC == (IsRec /\ rec.rc = 0) => DataOf(rec.data) = Fold(SetOf(rec.markers))
 \* reads keep returning correct data: the latest acknowledged value, the value of a write whose outcome was
 \* reported as an error (indeterminate), or an error status - never anything else
 FailedVals(k) == UNION {{Bat[b].ops[j][2] : j \in {x \in 1..Len(Bat[b].ops) : Bat[b].ops[x][1] = k}} : b \in failed \cup (begun \ ackedAll)}
-FaultReadsCorrect == rd.k >= 0 =>
+FaultReadsCorrectC == rd.k >= 0 =>
                        \/ rd.rc # 0 /\ rd.rc # 30001 /\ rd.v = 0 /\ fired > 0            \* an error status while a fault is active
                        \/ rd.v = Fold(ackedAll)[rd.k] /\ rd.rc = (IF rd.v = 0 THEN 30001 ELSE 0)
                        \/ rd.v \in FailedVals(rd.k)
+
+\* a violated invariant prints the trace position, so the orchestrator need not wait for TLC to rebuild the behaviour
+ViolAt(name) == PrintT(<<"pr", name, l>>)
+FaultOpenOk == FaultOpenOkC \/ ~ViolAt("FaultOpenOk")
+FaultAckedSurvive == FaultAckedSurviveC \/ ~ViolAt("FaultAckedSurvive")
+FaultNothingElse == FaultNothingElseC \/ ~ViolAt("FaultNothingElse")
+FaultAtomic == FaultAtomicC \/ ~ViolAt("FaultAtomic")
+FaultReadsCorrect == FaultReadsCorrectC \/ ~ViolAt("FaultReadsCorrect")
 =============================================================================
